@@ -619,8 +619,12 @@ def gen_leaf_update(rng, cfg, cur):
     return g_value(rng, fam, like=cur)
 
 
-def gen_update(rng, cfg, value, depth=0):
-    """an update for the subtree: mentions a subset of the variables"""
+def gen_update(rng, cfg, value, depth=0, later=False):
+    """an update for the subtree: mentions a subset of the variables; `later` = it follows another
+    update of the same variables within one batch"""
+    if (cfg_is_leaf(cfg) or not cfg['d']) and later and leaf_family(cfg) == 'dictvalue':
+        # no inner update after a possible `_add` earlier in the batch (candidate finding)
+        return g_dictvalue_upd(rng, {'d': []}, inner_ok=False)
     if cfg_is_leaf(cfg) or not cfg['d']:
         n = rng.choice([1, 1, 1, 2, 3, 4])
         if n == 1 and rng.random() < 0.9:
@@ -636,7 +640,7 @@ def gen_update(rng, cfg, value, depth=0):
     for k, sub in cfg['d']:
         if rng.random() < 0.65:
             cv = _dget(value, k) if isinstance(value, dict) and 'd' in value else None
-            kvs.append([k, gen_update(rng, sub, cv, depth + 1)])
+            kvs.append([k, gen_update(rng, sub, cv, depth + 1, later)])
     if rng.random() < 0.15:
         kvs.append(['nokey', rng.randrange(5)])
     if rng.random() < 0.15:
@@ -644,7 +648,7 @@ def gen_update(rng, cfg, value, depth=0):
     rng.shuffle(kvs)
     u = {'d': kvs}
     if depth > 0 and rng.random() < 0.08:
-        return {'d': [['_multi_update', {'l': [u, gen_update(rng, cfg, value, depth + 5)]}]]}
+        return {'d': [['_multi_update', {'l': [u, gen_update(rng, cfg, value, depth + 5, True)]}]]}
     if depth > 0 and rng.random() < 0.03:
         return rng.choice([7, None, 'str'])
     return u
